@@ -7,3 +7,7 @@ import AxVerif.Thm.C20
 import AxVerif.Thm.C01
 import AxVerif.Thm.C02
 import AxVerif.Thm.C08
+import AxVerif.Model.Db
+import AxVerif.Driver.Hist
+import AxVerif.Thm.C04
+import AxVerif.Thm.C03
